@@ -1,6 +1,6 @@
 From Coq Require Import List Arith ZArith QArith Bool.
 Import ListNotations.
-From UJ Require Import Obs.Progress Obs.ProgressProofs Obs.Render Obs.RenderProofs.
+From UJ Require Import Obs.Progress Obs.ProgressProofs Obs.Render Obs.RenderProofs Obs.ConsoleProofs.
 Open Scope Z_scope.
 
 Theorem C20_state_inv :
@@ -56,3 +56,42 @@ Theorem C20_last_render_final :
       outs = out :: rest /\ render_pure vty vlt vrepr kd (mapping (o_state o)) = Ok out.
 Proof. exact last_render_final. Qed.
 Print Assumptions C20_last_render_final.
+
+Theorem C20_render_shows_counts :
+  forall (vty : nat -> nat) (vlt : nat -> nat -> option bool) (vrepr : nat -> nat)
+         (kd : kind) (m : list (key * sstate)) (out : output) (s : nat) (sc : scope) (st : sstate),
+    render_pure vty vlt vrepr kd m = Ok out -> In s SECTIONS -> In ((s, sc), st) m ->
+    exists rows r, In (s, rows) out /\ In r rows /\ r_scope r = Some sc /\ r_ps r = progress_string st.
+Proof. exact render_pure_shows. Qed.
+Print Assumptions C20_render_shows_counts.
+
+Theorem C20_last_render_final_console :
+  forall (vty : nat -> nat) (vlt : nat -> nat -> option bool) (vrepr : nat -> nat)
+         (mi start : Q) (evs : list ev) (t1 t2 : Q) (o : obs) (outs : list output),
+    wf_evs true (rev evs) = true ->
+    observe output (render vty vlt vrepr Console true) mi start evs t1 t2 = Ok (o, outs) ->
+    exists o1 outs1,
+      run_obs output (render vty vlt vrepr Console true) mi start evs = Ok (o1, outs1) /\
+      cview (mapping (o_state o)) = cview (mapping (o_state o1)) /\
+      forall s, In s SECTIONS -> sec_items s (mapping (o_state o)) <> [] ->
+        exists rows, last_printed s outs = Some rows /\
+                     map strip rows = view_rows vty vlt vrepr (cs_view (sec_items s (mapping (o_state o)))).
+Proof. exact console_last_render_final. Qed.
+Print Assumptions C20_last_render_final_console.
+
+Theorem C20_console_rows_complete :
+  forall (vty : nat -> nat) (vlt : nat -> nat -> option bool) (vrepr : nat -> nat)
+         (v : list (scope * (Z * Z * Z * Z))) (sc : scope) (c : Z * Z * Z * Z),
+    In (sc, c) v -> In (Some sc, pstr_of c) (view_rows vty vlt vrepr v).
+Proof. exact view_rows_complete. Qed.
+Print Assumptions C20_console_rows_complete.
+
+Theorem C20_last_render_final_console_perkey_refuted :
+  exists (evs : list ev) (t : Q) o outs,
+    wf_evs false (rev evs) = true /\
+    observe output (render (fun _ => 0%nat) (fun _ _ => None) (fun x => x) Console true) 0 0 evs t t = Ok (o, outs) /\
+    exists rows, last_printed 0%nat outs = Some rows /\
+      map strip rows <> view_rows (fun _ => 0%nat) (fun _ _ => None) (fun x => x)
+                          (cs_view (sec_items 0%nat (mapping (o_state o)))).
+Proof. exact console_last_render_perkey_refuted. Qed.
+Print Assumptions C20_last_render_final_console_perkey_refuted.
